@@ -37,7 +37,7 @@ type c06Shared struct {
 	stop    int32
 	readers int32 // readers still running
 	// probe counters (plain maps must not be shared between tasks)
-	pinnedReq, exportPinned int64
+	pinnedReq, exportPinned, doubleClose int64
 	// finished is a real (race-detector-visible) release/acquire pair: the
 	// readers' last action and the writer's last check before it closes the
 	// tree, as an application that closes its store after its queries ended.
@@ -430,6 +430,7 @@ func execC06(p *drv.Plan) *Out {
 	out.Trace = fmt.Sprintf("%016x", tr.Sum())
 	out.Probes["prune.pinned-request"] = int(sh.pinnedReq)
 	out.Probes["export.pinned"] = int(sh.exportPinned)
+	out.Probes["export.double-close"] = int(sh.doubleClose)
 	if async {
 		out.Probes["mode.async"]++
 	} else {
@@ -608,6 +609,12 @@ func c06Read(tree *iavl.MutableTree, sched *sim.Sched, sh *c06Shared, s drv.Step
 				}
 			}
 			e.Close()
+			if r.Chance(1, 2) {
+				// "It is safe to call multiple times": the usual defer Close() plus
+				// an explicit Close(); it must not release anybody else's pin
+				e.Close()
+				sh.add(&sh.doubleClose, 1)
+			}
 			if pinnedOnly {
 				sh.add(&sh.leases[v], 1)
 				sh.add(&sh.pins[v], -1)
